@@ -217,6 +217,10 @@ func traceMask(t *Trace, key string) uint32 {
 			set = validKinds
 		case label == "ptr":
 			set = kmask(reflect.Ptr)
+		case strings.HasPrefix(label, "table:0x"):
+			var mm uint32
+			fmt.Sscanf(strings.TrimPrefix(label, "table:"), "0x%x", &mm)
+			set = mm
 		default:
 			if i := kindOfName(label); i >= 0 {
 				set = 1 << uint(i)
